@@ -186,6 +186,20 @@ fn build_items(lang: &str, mode: Mode, raw: Vec<RawItem>, out: &mut Vec<Item>) {
                 }
             }
             50..=56 => push(v.linking[idx(a, v.linking.len())].to_string(), Class::Link, out),
+            69..=71 if lang == "fr" => {
+                // the shapes the documented `neuf` (new/nine) heuristic keys on: determiner, 0-2 words, neuf
+                push(["le", "du", "un", "l'"][idx(a, 4)].to_string(), Class::Filler, out);
+                match b & 3 {
+                    0 => {}
+                    1 => push(v.fillers[idx(b, v.fillers.len())].to_string(), Class::Filler, out),
+                    2 => push(v.classes[idx(b, 5)][0].clone(), Class::Num, out),
+                    _ => {
+                        push(v.fillers[idx(b, v.fillers.len())].to_string(), Class::Filler, out);
+                        push(v.classes[2][idx(b, v.classes[2].len())].clone(), Class::Num, out);
+                    }
+                }
+                push("neuf".to_string(), Class::Num, out);
+            }
             57..=71 => push(v.fillers[idx(a, v.fillers.len())].to_string(), Class::Filler, out),
             72..=77 => push(v.conj.to_string(), Class::Conj, out),
             78..=82 => push(v.sep.to_string(), Class::Sep, out),
